@@ -1,8 +1,8 @@
 package main
 
 import (
-	"go/ast"
 	"fmt"
+	"go/ast"
 	"go/constant"
 	"go/token"
 	"go/types"
@@ -564,6 +564,52 @@ func branchFact(b Branch) (Fact, bool) {
 // edgesInto: the facts that hold on every path into instruction `at`, derived from If edges
 // that dominate it: an edge (B->S) counts when S dominates at's block and S's only predecessor is B.
 func dominatingFacts(at ssa.Instruction) []Fact {
+	return expandBoolPhiFacts(dominatingFacts0(at), 0)
+}
+
+// expandBoolPhiFacts: a boolean local that holds the value of `a && b` is a phi of the constant false (the
+// short-circuit edge) and of b, evaluated where a is known to hold. A fact "that phi is true" therefore implies
+// every fact that dominates the block b comes from, and b itself. (`truncated := err == errEndInput && f.eof`.)
+func expandBoolPhiFacts(facts []Fact, depth int) []Fact {
+	if depth > 2 {
+		return facts
+	}
+	out := facts
+	for _, f := range facts {
+		if f.Y != nil || f.Op != token.EQL {
+			continue
+		}
+		phi, ok := f.X.(*ssa.Phi)
+		if !ok || !isBoolType(phi.Type()) {
+			continue
+		}
+		var live []int
+		for i, e := range phi.Edges {
+			if k, isK := constInt(e); isK && k == 0 {
+				continue
+			}
+			live = append(live, i)
+		}
+		if len(live) != 1 {
+			continue
+		}
+		pred := phi.Block().Preds[live[0]]
+		var more []Fact
+		if len(pred.Instrs) > 0 {
+			more = append(more, dominatingFacts0(pred.Instrs[len(pred.Instrs)-1])...)
+		}
+		e := phi.Edges[live[0]]
+		if k, isK := constInt(e); !isK || k != 1 {
+			if bf, ok := branchFact(Branch{Cond: e, True: true}); ok {
+				more = append(more, bf)
+			}
+		}
+		out = append(out, expandBoolPhiFacts(more, depth+1)...)
+	}
+	return out
+}
+
+func dominatingFacts0(at ssa.Instruction) []Fact {
 	var facts []Fact
 	blk := at.Block()
 	fn := blk.Parent()
